@@ -88,6 +88,9 @@ Definition identical_req (o' : opts) (d : Z) (ex : pin) : bool :=
   opts_sem_eqb (pb_norm_opts d o') (p_opts ex) && expire_eqb (o_expire o') (o_expire (p_opts ex))
   && (match o_ualloc o' with [] => true | _ => false end) && (o_mode o' =? o_mode (p_opts ex))%N.
 
+Definition literal_req (o' : opts) (ex : pin) : bool :=
+  list_eqb N.eqb (o_origins o') (o_origins (p_opts ex)) && meta_eqb (o_meta o') (o_meta (p_opts ex)).
+
 (* update: entry t is the source entry under the new CID, source recorded, name / expiry overridden as coded *)
 Definition update_expected (now : Z) (ex : pin) (f t : N) (o : opts) : pin :=
   let o2 := set_update (Some f) (p_opts ex) in
@@ -134,16 +137,23 @@ Definition spec_pin (c : cfg) (e : env) (st : pinset) (p0 : pin) (r : obsres) (s
               && pin_eqb s (pb_norm q)
               && ptype_eqb (p_ty s) (p_ty p0)
               && opts_sem_eqb (p_opts s) (pb_norm_opts (p_depth s) o')
-              && (let ident := match existing with Some ex => identical_req o' (p_depth p0) ex | None => false end in
-                  let cur := match existing with Some ex => p_allocs ex | None => [] end in
+              && (let cur := match existing with Some ex => p_allocs ex | None => [] end in
+                  (* literally the request that is stored / not even the same once read as the property reads options *)
+                  let ident_lit := match existing with Some ex => identical_req o' (p_depth p0) ex && literal_req o' ex | None => false end in
+                  let ident_sem := match existing with Some ex => identical_req o' (p_depth p0) ex | None => false end in
+                  let kept := match cur with [] => false | _ => perm_eqb (p_allocs s) cur end in
+                  let fresh (prio : list N) :=
+                    if everywhere o' then (match p_allocs s with [] => true | _ => false end)
+                    else C03_Check.spec_okb (e_now e)
+                           (mk_input (o_rmin o') (o_rmax o') cur (e_metrics e) [] prio (alloc_rev c)) (ObsOk (p_allocs s)) in
+                  let changed := match p_allocs p0 with
+                                 | _ :: _ => if everywhere o' then fresh [] else perm_eqb (p_allocs s) (p_allocs p0)
+                                 | [] => fresh (o_ualloc o') end in
                   (* a request whose depth contradicts its mode does not say what "identical" means: allocation clause not applied *)
                   if ptype_eqb (p_ty p0) MetaT || negb (mode_of_depth (p_depth p0) =? o_mode o')%N then true
-                  else if ident && (match cur with [] => false | _ => true end) then perm_eqb (p_allocs s) cur
-                  else if everywhere o' then (match p_allocs s with [] => true | _ => false end)
-                  else if negb ident && (match p_allocs p0 with [] => false | _ => true end) then perm_eqb (p_allocs s) (p_allocs p0)
-                  else C03_Check.spec_okb (e_now e)
-                         (mk_input (o_rmin o') (o_rmax o') cur (e_metrics e) [] (if ident then [] else o_ualloc o') (alloc_rev c))
-                         (ObsOk (p_allocs s)))
+                  else if ident_lit then (match cur with [] => fresh [] | _ => kept end)
+                  else if negb ident_sem then changed
+                  else kept || changed || fresh [])
           end
       end
   end.
